@@ -64,10 +64,37 @@ def matcher(finding, failure):
     return core.default_matcher(finding, failure)
 
 
+BIT_NAMES = {1: "F14 (defrag coalescing)", 2: "F15b (CanResume coverage)", 4: "F23 (defrag without layers)"}
+
+
+def probe_variant(ctx):
+    """Tie 1: run the real code on the three witness histories and derive which repairs the tree
+    carries; the oracle is asked for exactly that model variant.  An explicit VERIF_C06_VARIANT wins."""
+    if "VERIF_C06_VARIANT" in os.environ:
+        return VARIANT, "env"
+    rc, out, outdir = ctx.go_test("./kvcache/", OVERLAY, "^TestVerifC06Probe$")
+    try:
+        return int(open(os.path.join(outdir, "variant.txt")).read().strip()), "probed"
+    except Exception:
+        ctx.notes.append("variant probe failed; falling back to the registered constant")
+        return VARIANT, "constant"
+
+
 def run(ctx):
     ctx.lean_check(MODULES, THEOREMS)
+    variant, how = probe_variant(ctx)
+    ctx.coverage["model_variant"] = variant
+    ctx.coverage["model_variant_source"] = how
+    ctx.coverage["model_variant_expected"] = VARIANT
+    lost = [BIT_NAMES[b] for b in BIT_NAMES if (VARIANT & b) and not (variant & b)]
+    if lost:
+        # a repair that this tree is expected to carry is gone: the model follows the tree (L1 stays
+        # exact) and the L2 monitors report the defect with concrete inputs (its finding is no longer
+        # "known", so it is a violation)
+        core.log(f"[C06] tree lacks expected repair(s): {', '.join(lost)}")
+        ctx.coverage["repairs_missing_in_tree"] = lost
     env = {"VERIF_N": ctx.scale(2500, 60000), "VERIF_EXH_DEPTH": ctx.scale(3, 5),
-           "VERIF_C06_VARIANT": VARIANT, "VERIF_CORPUS": os.path.join(core.ROOT, "corpus", "C06")}
+           "VERIF_C06_VARIANT": variant, "VERIF_CORPUS": os.path.join(core.ROOT, "corpus", "C06")}
     if ctx.replay:
         env["VERIF_REPLAY"] = ctx.replay_line_file()
     rc, out, outdir = ctx.go_test("./kvcache/", OVERLAY, "^TestVerifC06$", env=env)
